@@ -6,3 +6,5 @@ import G3D.Props.C03
 #print axioms G3D.Props.C03.inter_polygon_polygon_exact
 #print axioms G3D.Props.C03.inter_polygon_polygon_result_valid
 #print axioms G3D.Props.C03.inter_polygon_polygon_total
+#print axioms G3D.Props.C03.inter_polygon_polyhedron_exact
+#print axioms G3D.Props.C03.inter_polygon_polyhedron_total
